@@ -70,7 +70,11 @@ def witness_histories(be):
 
 
 def part_witness(run, be):
-    ws = witness_histories(be)
+    try:
+        ws = witness_histories(be)
+    except Exception as e:  # noqa
+        run.find("witness:raised", "executing the witness histories raised: " + repr(e)[:200], {"part": "witness", "raised": repr(e)[:300]})
+        return
     vals = eval_cases(run, "witness", [hr.coq_case() for _, hr in ws])
     if vals is None:
         run.find("witness:coq-failed", "generated witness file did not compile", {}, concrete=False)
@@ -133,9 +137,17 @@ def one_history(run, be, i):
 def part_histories(run, be, count):
     exprs, hrs = [], []
     for i in range(count):
-        hr = one_history(run, be, i)
+        try:
+            hr = one_history(run, be, i)
+            expr = hr.coq_case()
+        except Exception as e:  # noqa
+            run.case({"hist": i, "raised": True}, False)
+            run.find("hist:raised", "executing a history of executions and accessor calls raised: " + repr(e)[:200],
+                     {"part": "hist", "case": i, "raised": repr(e)[:300]})
+            continue
+        hr.case_index = i
         hrs.append(hr)
-        exprs.append(hr.coq_case())
+        exprs.append(expr)
         readers = {e["result"] for e in hr.log if e["op"] in ("samples", "freqs")}
         run.case({"hist": hr.log, "regs": hr.regs}, len(hr.results) >= 2 and len(readers) >= 1)
         if i < 2:
@@ -145,8 +157,9 @@ def part_histories(run, be, count):
         run.oblige("correspondence:histories", False, "correspondence")
         run.find("hist:coq-failed", "generated histories file did not compile", {}, concrete=False)
         return
-    model_ok, multi, multi_bad, single_bad = True, 0, 0, 0
-    for i, (hr, v) in enumerate(zip(hrs, vals)):
+    model_ok, multi, multi_bad, single_bad = not any(f.key == "hist:raised" for f in run.findings), 0, 0, 0
+    for i0, (hr, v) in enumerate(zip(hrs, vals)):
+        i = getattr(hr, "case_index", i0)
         info = {"part": "hist", "case": i, "n": hr.n, "registers": hr.regs, "history": hr.log}
         bools, verdicts = parse_case(v)
         readers = {e["result"] for e in hr.log if e["op"] in ("samples", "freqs")}
@@ -209,11 +222,18 @@ def part_seed(run, be, count):
         seed = crng.randrange(2 ** 31) if special is None else special
         # two fresh circuit objects, different generator states before seeding
         np.random.random(crng.randint(1, 5))
-        _, o1 = seeded_run(be, n, regs, execs, script, seed)
-        np.random.random(crng.randint(6, 9))
-        hr2, o2 = seeded_run(be, n, regs, execs, script, seed)
-        # the same circuit object once more with the same seed
-        _, o3 = seeded_run(be, n, regs, execs, script, seed, circuit_holder=hr2)
+        try:
+            _, o1 = seeded_run(be, n, regs, execs, script, seed)
+            np.random.random(crng.randint(6, 9))
+            hr2, o2 = seeded_run(be, n, regs, execs, script, seed)
+            # the same circuit object once more with the same seed
+            _, o3 = seeded_run(be, n, regs, execs, script, seed, circuit_holder=hr2)
+        except Exception as e:  # noqa
+            ok = False
+            run.case({"seed": i, "raised": True}, False)
+            run.find("seed:raised", "seeding / executing / reading a result raised: " + repr(e)[:200],
+                     {"part": "seed", "case": i, "n": n, "registers": regs, "seed": seed, "script": script, "raised": repr(e)[:300]})
+            continue
         info = {"part": "seed", "case": i, "n": n, "registers": regs, "seed": seed, "script": script,
                 "executions": [[str(a) for a in e[0]] + [e[1], e[2]] for e in execs]}
         run.case({"seed": info}, True)
@@ -270,91 +290,98 @@ def part_parallel(run, be, count):
     exprs, hrs, metas = [], [], []
     ok_plain = True
     for i in range(count):
-        crng = random.Random(f"{run.seed}:par:{i}")
-        n = crng.randint(1, 2)
-        regs = random_registers(crng, n)
-        k = 1 + i % 3
-        nst = crng.randint(2, 4)
-        sts = [dyadic_state(crng, n, deterministic=(crng.random() < 0.4)) for _ in range(nst)]
-        be.set_seed(crng.randrange(2 ** 31))
-        mode = ("same_circuit", "circuits", "parametrized")[i % 3]
-        info = {"part": "parallel", "case": i, "helper": mode, "processes": k, "n": n, "registers": regs,
-                "states_times_2^j": [[str(a) for a in s[0]] + [s[1]] for s in sts]}
-        run.case({"parallel": info}, k >= 2)
-        if i < 3:
-            run.sample(info)
-        if mode == "same_circuit":
-            hr = HistoryRun(be, n, regs)
-            arrs = [np.array(a, dtype=complex) / 2 ** j for a, j in sts]
-            status, res = with_timeout(lambda: parallel_execution(hr.circuit, arrs, processes=k, backend=be))
-            if status != "ok":
-                ok_plain = False
-                run.find(f"parallel_execution:{status}", f"parallel_execution(processes={k}) {status}: {res!r}"[:300], info)
-                continue
-            if len(res) != nst or not any(r is hr.circuit._final_state for r in res):
-                ok_plain = False
-                run.find("parallel_execution:results", "wrong number of results or circuit._final_state is none of them", info)
-                continue
-            for r, (a, j) in zip(res, sts):
-                hr.adopt(r, a, j, 1000)     # parallel_execution uses the default nshots
-            # read every result: probabilities, then frequencies/samples in a random order
-            order = list(range(nst))
-            crng.shuffle(order)
-            for r in order:
-                hr.accessor("probs", r, qubits=ordered_sublist(crng, n, 1))
-            for r in order:
-                hr.accessor("freqs", r, False, crng.random() < 0.5)
-            hr.accessor("samples", order[0], False, False)
-            hr.accessor("freqs", order[-1], False, True)
-            hrs.append(hr)
-            metas.append((info, True))
-            exprs.append(hr.coq_case())
-        else:
-            # independent circuit objects: one machine per result
-            if mode == "circuits":
-                circs = [c03.make_circuit(n, regs) for _ in range(nst)]
-                arrs = [np.array(a, dtype=complex) / 2 ** j for a, j in sts]
-                ns = crng.randint(1, 9)
-                status, res = with_timeout(lambda: parallel_circuits_execution(circs, arrs, nshots=ns, processes=k, backend=be))
-            else:
-                ns = 1000
-                a0, j0 = sts[0]
-                base = Circuit(n)
-                perms = []
-                for q in range(n):
-                    base.add(gates.Unitary(np.eye(2, dtype=complex), q))
-                for reg in regs:
-                    base.add(gates.M(*reg))
-                X = np.array([[0, 1], [1, 0]], dtype=complex)
-                params = [[(X if crng.random() < 0.5 else np.eye(2, dtype=complex)) for _ in range(n)] for _ in range(nst)]
-                status, res = with_timeout(lambda: parallel_parametrized_execution(
-                    base, params, initial_state=np.array(a0, dtype=complex) / 2 ** j0, processes=k, backend=be))
-            if status != "ok":
-                ok_plain = False
-                run.find(f"parallel_{mode}:{status}", f"parallel helper {mode}(processes={k}) {status}: {res!r}"[:300], info)
-                continue
-            gates_shared = len({id(r.measurements[0]) for r in res}) != len(res)
-            if gates_shared:
-                ok_plain = False
-                run.find(f"parallel_{mode}:shared_gates", "results of independent circuit objects share measurement gates", info)
-            for t, r in enumerate(res):
+        n_e, n_h, n_m = len(exprs), len(hrs), len(metas)
+        try:
+            crng = random.Random(f"{run.seed}:par:{i}")
+            n = crng.randint(1, 2)
+            regs = random_registers(crng, n)
+            k = 1 + i % 3
+            nst = crng.randint(2, 4)
+            sts = [dyadic_state(crng, n, deterministic=(crng.random() < 0.4)) for _ in range(nst)]
+            be.set_seed(crng.randrange(2 ** 31))
+            mode = ("same_circuit", "circuits", "parametrized")[i % 3]
+            info = {"part": "parallel", "case": i, "helper": mode, "processes": k, "n": n, "registers": regs,
+                    "states_times_2^j": [[str(a) for a in s[0]] + [s[1]] for s in sts]}
+            run.case({"parallel": info}, k >= 2)
+            if i < 3:
+                run.sample(info)
+            if mode == "same_circuit":
                 hr = HistoryRun(be, n, regs)
-                hr.circuit = type("C", (), {"measurements": r.measurements, "_final_state": r})()
-                if mode == "circuits":
-                    a, j = sts[t]
-                else:
-                    # the state after the X gates chosen for this task
-                    a, j = list(sts[0][0]), sts[0][1]
-                    for q in range(n):
-                        if params[t][q][0, 0] == 0:
-                            a = [a[x ^ (1 << (n - 1 - q))] for x in range(2 ** n)]
-                hr.adopt(r, a, j, ns)
-                hr.accessor("probs", 0, qubits=ordered_sublist(crng, n, 1))
-                hr.accessor("freqs", 0, False, crng.random() < 0.5)
-                hr.accessor("samples", 0, False, crng.random() < 0.5)
+                arrs = [np.array(a, dtype=complex) / 2 ** j for a, j in sts]
+                status, res = with_timeout(lambda: parallel_execution(hr.circuit, arrs, processes=k, backend=be))
+                if status != "ok":
+                    ok_plain = False
+                    run.find(f"parallel_execution:{status}", f"parallel_execution(processes={k}) {status}: {res!r}"[:300], info)
+                    continue
+                if len(res) != nst or not any(r is hr.circuit._final_state for r in res):
+                    ok_plain = False
+                    run.find("parallel_execution:results", "wrong number of results or circuit._final_state is none of them", info)
+                    continue
+                for r, (a, j) in zip(res, sts):
+                    hr.adopt(r, a, j, 1000)     # parallel_execution uses the default nshots
+                # read every result: probabilities, then frequencies/samples in a random order
+                order = list(range(nst))
+                crng.shuffle(order)
+                for r in order:
+                    hr.accessor("probs", r, qubits=ordered_sublist(crng, n, 1))
+                for r in order:
+                    hr.accessor("freqs", r, False, crng.random() < 0.5)
+                hr.accessor("samples", order[0], False, False)
+                hr.accessor("freqs", order[-1], False, True)
                 hrs.append(hr)
-                metas.append((dict(info, task=t), False))
+                metas.append((info, True))
                 exprs.append(hr.coq_case())
+            else:
+                # independent circuit objects: one machine per result
+                if mode == "circuits":
+                    circs = [c03.make_circuit(n, regs) for _ in range(nst)]
+                    arrs = [np.array(a, dtype=complex) / 2 ** j for a, j in sts]
+                    ns = crng.randint(1, 9)
+                    status, res = with_timeout(lambda: parallel_circuits_execution(circs, arrs, nshots=ns, processes=k, backend=be))
+                else:
+                    ns = 1000
+                    a0, j0 = sts[0]
+                    base = Circuit(n)
+                    perms = []
+                    for q in range(n):
+                        base.add(gates.Unitary(np.eye(2, dtype=complex), q))
+                    for reg in regs:
+                        base.add(gates.M(*reg))
+                    X = np.array([[0, 1], [1, 0]], dtype=complex)
+                    params = [[(X if crng.random() < 0.5 else np.eye(2, dtype=complex)) for _ in range(n)] for _ in range(nst)]
+                    status, res = with_timeout(lambda: parallel_parametrized_execution(
+                        base, params, initial_state=np.array(a0, dtype=complex) / 2 ** j0, processes=k, backend=be))
+                if status != "ok":
+                    ok_plain = False
+                    run.find(f"parallel_{mode}:{status}", f"parallel helper {mode}(processes={k}) {status}: {res!r}"[:300], info)
+                    continue
+                gates_shared = len({id(r.measurements[0]) for r in res}) != len(res)
+                if gates_shared:
+                    ok_plain = False
+                    run.find(f"parallel_{mode}:shared_gates", "results of independent circuit objects share measurement gates", info)
+                for t, r in enumerate(res):
+                    hr = HistoryRun(be, n, regs)
+                    hr.circuit = type("C", (), {"measurements": r.measurements, "_final_state": r})()
+                    if mode == "circuits":
+                        a, j = sts[t]
+                    else:
+                        # the state after the X gates chosen for this task
+                        a, j = list(sts[0][0]), sts[0][1]
+                        for q in range(n):
+                            if params[t][q][0, 0] == 0:
+                                a = [a[x ^ (1 << (n - 1 - q))] for x in range(2 ** n)]
+                    hr.adopt(r, a, j, ns)
+                    hr.accessor("probs", 0, qubits=ordered_sublist(crng, n, 1))
+                    hr.accessor("freqs", 0, False, crng.random() < 0.5)
+                    hr.accessor("samples", 0, False, crng.random() < 0.5)
+                    hrs.append(hr)
+                    metas.append((dict(info, task=t), False))
+                    exprs.append(hr.coq_case())
+        except Exception as e:  # noqa
+            del exprs[n_e:], hrs[n_h:], metas[n_m:]
+            ok_plain = False
+            run.find("parallel:raised", "a parallel helper or reading its results raised: " + repr(e)[:200],
+                     {"part": "parallel", "case": i, "raised": repr(e)[:300]})
     vals = eval_cases(run, "parallel", exprs, chunk=6)
     if vals is None:
         run.oblige("correspondence:parallel_helpers", False, "correspondence")
@@ -386,19 +413,28 @@ def part_repeated_sharing(run, be, count):
         results, S = [], []
         info = {"part": "repeated_sharing", "case": i, "n": n, "collapse": f"M({','.join(map(str, cq))}, collapse=True)",
                 "registers": regs, "executions": []}
-        for _ in range(2):
-            ints, j = dyadic_state(crng, n)
-            ns = crng.randint(1, 5)
-            r = c(initial_state=np.array(ints, dtype=complex) / 2 ** j, nshots=ns)
-            results.append(r)
-            S.append([int(x) for x in np.asarray(r.samples(binary=False)).tolist()])
-            info["executions"].append({"state_times_2^j": [str(a) for a in ints], "j": j, "nshots": ns, "samples": S[-1]})
+        try:
+            for _ in range(2):
+                ints, j = dyadic_state(crng, n)
+                ns = crng.randint(1, 5)
+                info["executions"].append({"state_times_2^j": [str(a) for a in ints], "j": j, "nshots": ns})
+                with np.errstate(all="ignore"):
+                    r = c(initial_state=np.array(ints, dtype=complex) / 2 ** j, nshots=ns)
+                results.append(r)
+                S.append([int(x) for x in np.asarray(r.samples(binary=False)).tolist()])
+                info["executions"][-1]["samples"] = S[-1]
+            terms = [c03.view_terms(r, c.measurements, regs, "repshare", run, info, report_shape=False) for r in results]
+        except Exception as e:  # noqa
+            run.case({"repeated_sharing": info, "raised": True}, False)
+            run.find("repeated_sharing:raised", "shot-by-shot execution of a circuit with a collapsing measurement (or reading its result) raised: " + repr(e)[:200],
+                     dict(info, raised=repr(e)[:300]))
+            continue
         run.case({"repeated_sharing": info}, S[0] != S[1])
         if i == 0:
             run.sample(info)
         cfg = f"(mkcfg {n}%nat {c03.nat_list_list(regs)})"
         for t, r in enumerate(results):
-            for label, op, out in c03.view_terms(r, c.measurements, regs, "repshare", run, info, report_shape=False):
+            for label, op, out in terms[t]:
                 items.append((f"repshare:case{i}:r{t}:{label}", f"explainsb {cfg} (@nil Z) {c03.nat_list(S[t])} ({op}) ({out})"))
                 meta.append((f"repshare:case{i}:r{t}:{label}", info, t, label))
     res, _ = run.coq_bools("repshare.v", c03.HEADER, items, timeout=600)
@@ -414,7 +450,7 @@ def part_repeated_sharing(run, be, count):
                      "after another shot-by-shot execution of the same circuit object a view of the result is no longer its own samples "
                      "(the per-register samples live on the circuit's measurement gates)", dict(info, result=t, view=view))
     run.notes["repeated_execution_views_not_own"] = bad
-    if not bad:
+    if not bad and not any(f.key == "repeated_sharing:raised" for f in run.findings):
         run.oblige("test:repeated_execution_results_standalone", True, "test")
 
 
@@ -432,40 +468,47 @@ def part_clifford(run, be_np, count):
     cb = CliffordBackend()
     items, meta = [], []
     for i in range(count):
-        crng = random.Random(f"{run.seed}:clifford:{i}")
-        n = crng.randint(1, 3)
-        regs = random_registers(crng, n)
-        c = c03.make_circuit(n, regs)
-        results, execs = [], []
-        for _ in range(2):
-            x = [crng.randint(0, 1) for _ in range(n)]
-            prep = Circuit(n)
-            for q in range(n):
-                if x[q]:
-                    prep.add(gates.X(q))
-            init = cb.execute_circuit(prep).symplectic_matrix if any(x) else None
-            ns = crng.randint(1, 6)
-            results.append(cb.execute_circuit(c, initial_state=init, nshots=ns))
-            execs.append((x, ns))
-        order = [0, 1] if crng.random() < 0.5 else [1, 0]
-        info = {"part": "clifford", "case": i, "n": n, "registers": regs, "read_order": order,
-                "executions": [{"basis_state_bits": x, "nshots": ns} for x, ns in execs]}
-        run.case({"clifford": info}, execs[0] != execs[1])
-        if i == 0:
-            run.sample(info)
-        cfg = f"(mkcfg {n}%nat {c03.nat_list_list(regs)})"
-        for t in order:
-            r = results[t]
-            x, ns = execs[t]
-            w = [0] * 2 ** n
-            w[int("".join(map(str, x)), 2)] = 1
-            S = [int(v) for v in np.asarray(r.samples(binary=False)).tolist()]
-            info["executions"][t]["samples"] = S
-            items.append((f"cl{i}:r{t}:shots", f"shots_okb {cfg} {c03.z_list(w)} {ns}%nat {c03.nat_list(S)}"))
-            meta.append((f"cl{i}:r{t}:shots", info, t, "shots"))
-            for label, op, out in c03.view_terms(r, c.measurements, regs, "clifford", run, info, report_shape=False):
-                items.append((f"cl{i}:r{t}:{label}", f"explainsb {cfg} {c03.z_list(w)} {c03.nat_list(S)} ({op}) ({out})"))
-                meta.append((f"cl{i}:r{t}:{label}", info, t, label))
+        n_items, n_meta = len(items), len(meta)
+        try:
+            crng = random.Random(f"{run.seed}:clifford:{i}")
+            n = crng.randint(1, 3)
+            regs = random_registers(crng, n)
+            c = c03.make_circuit(n, regs)
+            results, execs = [], []
+            for _ in range(2):
+                x = [crng.randint(0, 1) for _ in range(n)]
+                prep = Circuit(n)
+                for q in range(n):
+                    if x[q]:
+                        prep.add(gates.X(q))
+                init = cb.execute_circuit(prep).symplectic_matrix if any(x) else None
+                ns = crng.randint(1, 6)
+                results.append(cb.execute_circuit(c, initial_state=init, nshots=ns))
+                execs.append((x, ns))
+            order = [0, 1] if crng.random() < 0.5 else [1, 0]
+            info = {"part": "clifford", "case": i, "n": n, "registers": regs, "read_order": order,
+                    "executions": [{"basis_state_bits": x, "nshots": ns} for x, ns in execs]}
+            run.case({"clifford": info}, execs[0] != execs[1])
+            if i == 0:
+                run.sample(info)
+            cfg = f"(mkcfg {n}%nat {c03.nat_list_list(regs)})"
+            for t in order:
+                r = results[t]
+                x, ns = execs[t]
+                w = [0] * 2 ** n
+                w[int("".join(map(str, x)), 2)] = 1
+                S = [int(v) for v in np.asarray(r.samples(binary=False)).tolist()]
+                info["executions"][t]["samples"] = S
+                items.append((f"cl{i}:r{t}:shots", f"shots_okb {cfg} {c03.z_list(w)} {ns}%nat {c03.nat_list(S)}"))
+                meta.append((f"cl{i}:r{t}:shots", info, t, "shots"))
+                for label, op, out in c03.view_terms(r, c.measurements, regs, "clifford", run, info, report_shape=False):
+                    items.append((f"cl{i}:r{t}:{label}", f"explainsb {cfg} {c03.z_list(w)} {c03.nat_list(S)} ({op}) ({out})"))
+                    meta.append((f"cl{i}:r{t}:{label}", info, t, label))
+        except Exception as e:  # noqa
+            del items[n_items:], meta[n_meta:]
+            run.case({"clifford": i, "raised": True}, False)
+            run.find("clifford:raised", "executing a circuit on the Clifford backend / reading its result raised: " + repr(e)[:200],
+                     {"part": "clifford", "case": i, "raised": repr(e)[:300]})
     res, _ = run.coq_bools("clifford.v", c03.HEADER, items, timeout=600)
     if res is None:
         run.find("clifford:coq-failed", "generated file did not compile", {}, concrete=False)
@@ -513,13 +556,14 @@ def main(run):
     if run.tier == "thorough":
         c03.coqchk(run, "QV.C14.Props")
     b = budgets(run.tier)
-    part_witness(run, be)
-    part_histories(run, be, b["hist"])
-    part_seed(run, be, b["seed"])
-    part_parallel(run, be, b["par"])
-    part_repeated_sharing(run, be, b["rep"])
-    part_clifford(run, be, b["cliff"])
-    c03.part_bitflip(run, None, be, b["flip"], tag="bitflip_two_results", executions=2)
+    sp = c03.safe_part
+    sp(run, "witness", lambda: part_witness(run, be))
+    sp(run, "hist", lambda: part_histories(run, be, b["hist"]))
+    sp(run, "seed", lambda: part_seed(run, be, b["seed"]))
+    sp(run, "parallel", lambda: part_parallel(run, be, b["par"]))
+    sp(run, "repeated_sharing", lambda: part_repeated_sharing(run, be, b["rep"]))
+    sp(run, "clifford", lambda: part_clifford(run, be, b["cliff"]))
+    sp(run, "bitflip_two_results", lambda: c03.part_bitflip(run, None, be, b["flip"], tag="bitflip_two_results", executions=2))
     run.refuted = list(dict.fromkeys(run.refuted))
     return run.finish(rule=RULE)
 
